@@ -83,10 +83,19 @@ def run(chk, tier):
     pure = same_value(st.objs[args[0].obj], selfv)
     chk.ob("R2", "random_loop_cnt|does not change the generator", pure, "", nontrivial=False)
     for site_fn in ("lfsr_time", "memaccess"):
-        b = crate.bodies[body_by_def(crate, J + site_fn)]
-        sites = [t for _, t in sq.iter_calls(b) if (t[1].get("rdef") or "").endswith("random_loop_cnt")]
-        okc = len(sites) == 1 and sites[0][2][1][0] == "k" and sites[0][2][1][1].get("int") == "4"
-        chk.ob("R2", "%s|calls random_loop_cnt with n_bits = 4" % site_fn, okc, "%d call site(s)" % len(sites), nontrivial=False)
+        # evaluated with random_loop_cnt opaque (private helpers in between are inlined): one call, n_bits = 4
+        sk_ = body_by_def(crate, J + site_fn)
+        ev_s = ev_for(crate, opaque=[J + "random_loop_cnt"])
+        st_s = State()
+        args_s, _ = symbolic_args(ev_s, st_s, crate.bodies[sk_])
+        try:
+            ev_s.call_body(st_s, sk_, args_s)
+            sites = [c for c in ev_s.calls if c[1].split("::<")[0].endswith("random_loop_cnt") or c[1].endswith("random_loop_cnt")]
+            okc = len(sites) == 1 and sites[0][5][1] == (T.const(4, 32),)
+            detail = "%d call(s), n_bits %s" % (len(sites), [[T.show(x, 1) for x in c[5][1]] for c in sites])
+        except (Unsupported, SymbolicLoop, Diverged) as e:
+            okc, detail = False, "not established: %s" % e
+        chk.ob("R2", "%s|calls random_loop_cnt once, with n_bits = 4" % site_fn, okc, detail, nontrivial=False)
 
     # ---- stuck
     sk = body_by_def(crate, "rand_jitter::EcState::stuck")
@@ -209,9 +218,13 @@ def run(chk, tier):
         es, nl, nl2 = REF.stuck(ecpre.fields[iL], ecpre.fields[iL2], delta32)
         okec = ecpost.fields[iP] is rd and ecpost.fields[iL] is nl and ecpost.fields[iL2] is nl2
         chk.ob("R7", "measure_jitter|previous reading and delta history updated", okec, "", where=crate.bodies[jk]["span"][0])
-        okret = isinstance(r, EnumV) and isinstance(r.discr, T.T) and T.eqz(r.discr) is es
-        chk.ob("R7", "measure_jitter|returns None exactly when the stuck test fires", okret,
-               "discriminant %s" % (T.show(r.discr, 3) if isinstance(r, EnumV) and isinstance(r.discr, T.T) else r), where=crate.bodies[jk]["span"][0])
+        if isinstance(r, EnumV) and isinstance(r.discr, T.T):
+            okret = T.eqz(r.discr) is es  # Option<()>: None exactly when stuck
+        else:
+            okret = isinstance(r, T.T) and r.w == 1 and T.bnot(r) is es  # bool: false exactly when stuck ("accepted")
+        chk.ob("R7", "measure_jitter|returns None (or false) exactly when the stuck test fires", okret,
+               "returns %s" % (T.show(r.discr, 3) if isinstance(r, EnumV) and isinstance(r.discr, T.T) else (T.show(r, 3) if isinstance(r, T.T) else r)),
+               where=crate.bodies[jk]["span"][0])
         post = st.objs[args[0].obj]
         dpost = post.fields[iD]
         okrot = dpost.op == "ite" and {dpost.args[1], dpost.args[2]} >= set() and any(
@@ -254,6 +267,24 @@ def run(chk, tier):
     inner = [r_ for r_ in recs if is_retry_loop(r_)]
     outer = [r_ for r_ in recs if r_ not in inner]
     okl = len(recs) == 2 and len(inner) == 1 and len(outer) == 1 and len(outer[0].exits) == 1 and outer[0].exits[0][0].op != "const"
+    if not okl and len(recs) == 1:
+        # the same thing as one loop: `while accepted < rounds { if measure_jitter(..) { accepted += 1 } }` -- one measurement
+        # per iteration, and the counter advances exactly when that measurement was accepted
+        r_ = recs[0]
+        mcs = [c for c in r_.calls if c[1].endswith("measure_jitter")]
+        if len(mcs) == 1 and len(r_.conts) == 1:
+            call = mcs[0][4]
+            accepted = [T.bnot(T.eqz(T.atom("res", 64, (call,), "ret.discr"))), T.atom("res", 1, (call,), "ret")]
+            cond, nxt, world, assume = r_.conts[0]
+            s2 = st.fork()
+            s2.assume = tuple(assume)
+            for n, wh, init, t, rng in r_.vars:
+                if isinstance(init, T.T) and init.op == "const" and init.aux == 0 and isinstance(t, T.T) and isinstance(nxt.get(n), T.T) \
+                        and any(a.op == "ult" and a.args[0] is t for a in assume):
+                    nv = LP.resolve(ev, s2, nxt[n])
+                    one = T.add(t, T.const(1, t.w))
+                    if any(nv is T.ite(a_, one, t) for a_ in accepted):
+                        okl = True
     chk.ob("R8", "gen_entropy|per round: repeat measure_jitter until it is accepted", okl, "loops: %d" % len(recs), where=crate.bodies[gk]["span"][0])
     # EcState initialisation: prev_time = priming reading, deltas 0, mem zeroed: visible in the first measure_jitter call's arguments
     if oks:
